@@ -189,6 +189,20 @@ def plan(mods):
     return ctx, loaded, tasks, nlem
 
 
+def run_structural(ctx):
+    """syntactic obligations on the source (e.g. `__bool__ = get` in a class body)"""
+    recs = []
+    for name, fn in ctx.structural:
+        try:
+            ok, detail = fn(ctx)
+            recs.append({"name": name, "kind": "structural", "status": "unsat" if ok else "sat", "backend": "ast",
+                         "time": 0.0, "tags": tags_of(name), "trace": [], "nhyps": 0, "line": None, "goal": detail, "model": {}})
+        except Unsupported as e:
+            recs.append({"name": name, "kind": "structural", "status": "unknown", "backend": f"ast:{e}", "time": 0.0,
+                         "tags": tags_of(name), "trace": [], "nhyps": 0, "line": None})
+    return {"label": "structural", "contract": None, "obligations": recs, "error": None, "unsupported": None, "wall_s": 0.0, "lemma": True}
+
+
 def run_modules(mods, opts, jobs=16):
     ctx, loaded, tasks, nlem = plan(mods)
     work = [(_run_task, (mods, n, r, opts)) for n, r in tasks] + [(_run_lemma, (mods, i, opts)) for i in range(nlem)]
@@ -202,6 +216,8 @@ def run_modules(mods, opts, jobs=16):
             asyncs = [pool.apply_async(f, (a,)) for f, a in work]
             for a in asyncs:
                 results.append(a.get())
+    if ctx.structural:
+        results.append(run_structural(ctx))
     return ctx, loaded, results
 
 
